@@ -92,6 +92,15 @@ def correspondence(r):
         k = next((i for i in range(0, min(len(out), len(pre)), 2) if out[i:i + 2] != pre[i:i + 2]), min(len(out), len(pre)))
         return {"what": "bytes before moov differ (ftyp / mdat header / payload order)", "first_diff_byte": k // 2,
                 "model": pre[max(0, k - 16):k + 32], "impl": out[max(0, k - 16):k + 32]}
+    full = model.get("full") or {}
+    if full.get("r") == "ok":
+        fb = full["bytes"]
+        if fb != out:
+            k = next((i for i in range(0, min(len(out), len(fb)), 2) if out[i:i + 2] != fb[i:i + 2]), min(len(out), len(fb)))
+            return {"what": "the complete output differs from the model's bytes (mux_bytes: Writer.v + WriterMoov.v + box encoders) at byte %d of %d/%d" % (k // 2, len(fb) // 2, len(out) // 2),
+                    "model": fb[max(0, k - 16):k + 48], "impl": out[max(0, k - 16):k + 48]}
+    elif full.get("r") in ("panic", "err"):
+        return {"what": "the model's moov construction/encoding ends in %s (%s), the implementation wrote a file" % (full.get("r"), full.get("site"))}
     iso = r["iso"]
     if iso is None or not iso.get("parse"):
         return {"what": "independent parser cannot read the real output", "iso": iso}
